@@ -40,10 +40,14 @@ def run(tier, seed, res, lean):
     bad = [b for o in outs for b in o[1]]
     coll = [c for o in outs for c in o[3]]
     pyeq = [c for o in outs for c in o[4]]
-    for c in coll[:10]:
+    for c in [c for c in coll if not c.get('silent_none')][:10]:
         res.violations.append(Violation(
             'c05-collision', f'equal NodeHash for different computations: {c["value_a"][:120]} vs {c["value_b"][:120]}',
             {'suite': 'S-HASH', **c}))
+    for c in [c for c in coll if c.get('silent_none')][:3]:
+        res.violations.append(Violation(
+            'c05-silent-none', f'a Silent position hashes like an argument whose value is None: {c["value_a"][:80]} vs {c["value_b"][:80]}',
+            {'suite': 'S-HASH', 'signature': {'kind': 'silent_vs_none'}, **c}))
     for c in pyeq[:3]:
         res.violations.append(Violation(
             'c05-pyeq', f'NodeHash equality is Python ==: {c["value_a"][:80]} vs {c["value_b"][:80]}',
@@ -69,6 +73,20 @@ def replay(obj, kind):
         still = suite_hash.check_pair(obj)
         return (not still), ('still colliding on the real code' if still else 'the two evaluations no longer collide')
     return True, 'correspondence replays are re-run by the check itself'
+
+
+def witness_f9():
+    """FunctionEdge(f, 1, silent=(0,)) on any input and FunctionEdge(f, 1) on the input None get the same hash"""
+    from ..paths import use_repo
+    use_repo()
+    from connectome.engine import FunctionEdge, TreeNode, Graph
+
+    def f(x):
+        return x
+    x = TreeNode('x', None, None)
+    a = Graph([x], TreeNode('a', (FunctionEdge(f, 1, (), (0,)), [x]), None))
+    b = Graph([x], TreeNode('b', (FunctionEdge(f, 1), [x]), None))
+    return a.get_hash('something')[0] == b.get_hash(None)[0]
 
 
 def witness_f3():
